@@ -83,6 +83,29 @@ func C05real(r *ev.Report) {
 		}
 	})
 
+	// coordinate-pattern representations against a few partners (same point in another scaling, -P, other points)
+	ext := CoordPatternReps()
+	r.Bound("coordinate_pattern_representations", len(ext))
+
+	r.ParFor(len(ext), func(_, i int) {
+		a := ext[i]
+		partners := []Rep{{a.P, ref.I(1)}, {a.P, ref.I(7)}, {ref.Secp.Neg(a.P), ref.I(1)}, {ref.Infinity(), ref.I(3)}, {ref.Secp.Double(a.P), ref.I(2)}, ext[(i+1)%len(ext)], ext[(i+4)%len(ext)]}
+
+		for _, b := range partners {
+			for _, pair := range [][2]Rep{{a, b}, {b, a}} {
+				r.Transitions.Add(3)
+				r.Evals.Add(1)
+
+				if key, detail := c05Case(pair[0], pair[1]); key != "" {
+					c := Case{"op": "Equal"}
+					repCase("a", pair[0], c)
+					repCase("b", pair[1], c)
+					r.Violation(key, detail, c)
+				}
+			}
+		}
+	})
+
 	c := Case{"op": "Equal"}
 	repCase("a", reps[8].Rep, c)
 	repCase("b", reps[15].Rep, c)
